@@ -425,6 +425,15 @@ def rnd_version(rng, name):
     return rng.choice(["3.4.19", "370", "1.13.1", "3.3a", "6003", "0.3.1.200", "%d.%d" % (rng.randrange(9), rng.randrange(30))])
 
 
+# free text of real-world version replies: valid UTF-8 beyond ASCII (never digits or white space of another script -
+# Python's int() would accept those; never bytes that are not UTF-8 - the unchanged code raises UnicodeDecodeError on them)
+UTF8_TEXT = ["\u2013nightly", " \u00b7 wayland", "\u00e9", " \u65e5\u672c", "-b\u00eata", " (\u65e5"[:-2] + "\u672c\u8a9e"]
+
+
+def utf8_free_text(rng, ver: str) -> str:
+    return ver + rng.choice(UTF8_TEXT) if rng.random() < 0.15 else ver
+
+
 def vtuple_or_none(v: str):
     """independent reading of a dotted version made of plain decimal numbers"""
     parts = v.split(".")
@@ -651,6 +660,9 @@ class C12(Property):
         yield self._term_case(rng, "colors", replies, REQ["colors"], sem=sem, wellformed=wellformed)
 
     def gen_namever(self, rng):
+        # non-ASCII free text only when every reply arrives whole and in time: a reply that the timeout cuts inside a
+        # multi-byte character is not valid UTF-8 any more and `.decode()` raises on the unchanged code as well
+        mode = rng.choice(["unit", "unit", "unit", "any", "late"])
         sup = {q: rng.random() < 0.85 for q in ("ver", "da1")}
         sem, replies, wellformed = {}, {}, True
         if sup["ver"]:
@@ -660,6 +672,8 @@ class C12(Property):
                 paren = not paren
             if rng.random() < 0.15:
                 ver = rng.choice([ver + " beta", "[" + ver, ver + "\x07x", "v" + ver, ver + "c", " " + ver, "1.2(3"])
+            if mode == "unit":
+                ver = utf8_free_text(rng, ver)
             t = rng.choice([ST, ST, BEL])
             r = xt_reply(name, ver, paren, t)
             if rng.random() < 0.12:
@@ -677,7 +691,7 @@ class C12(Property):
             replies["da1"] = rnd_da1(rng).hex()
         env = rng.choice([(None, None), (None, None), ("WezTerm", "20230712"), ("iTerm.app", None), ("", ""), (None, "3")])
         extra_line = f" {f_ob(env[0])} {f_ob(env[1])}"
-        yield self._term_case(rng, "namever", replies, REQ["namever"], sem=sem, wellformed=wellformed,
+        yield self._term_case(rng, "namever", replies, REQ["namever"], sem=sem, wellformed=wellformed, mode=mode,
                               extra_line=extra_line, extra={"env": list(env)})
 
     def gen_cellsize(self, rng):
@@ -718,7 +732,7 @@ class C12(Property):
         if r < 0.16:
             return name, ""
         if r < 0.24:
-            ver = rng.choice([" " + ver, ver + " ", "+" + ver, "0.2_0.0", "0.-20.0", ver + ".", "." + ver, "0..20", "1_0.0", "0x14.0", "0.20.0\n"])
+            ver = rng.choice([ver + "\u2013nightly", ver + " \u00b7 x", " " + ver, ver + " ", "+" + ver, "0.2_0.0", "0.-20.0", ver + ".", "." + ver, "0..20", "1_0.0", "0x14.0", "0.20.0\n"])
         return name, ver
 
     def gen_kitty(self, rng):
@@ -751,7 +765,10 @@ class C12(Property):
     def gen_auto(self, rng):
         T = rng.choice([10, 20, DEFAULT_TICKS, 100, 1000])
         name, paren = rng.choice(NAMES + [("kitty", True)] * 4 + [("Konsole", False)] * 3 + [("iTerm2", False), ("WezTerm", False)] * 2)
+        mode = rng.choice(["unit", "unit", "any", "late"])
         ver = rnd_version(rng, name)
+        if mode == "unit":
+            ver = utf8_free_text(rng, ver)
         sup = {q: rng.random() < 0.85 for q in ("ver", "da1")}
         sup["kitty"] = name.lower() in ("kitty", "konsole") and rng.random() < 0.85 or rng.random() < 0.1
         replies = {}
@@ -761,7 +778,6 @@ class C12(Property):
             replies["kitty"] = (b"\x1b_Gi=31;" + rng.choice([b"OK"] * 5 + [b"ENOTSUP"]) + ST).hex()
         if sup["da1"]:
             replies["da1"] = rnd_da1(rng).hex()
-        mode = rng.choice(["unit", "unit", "any", "late"])
         plans = {}
         for first, qs in (("ver", REQ["namever"]), ("kitty", REQ["kitty"])):
             us = [bytes.fromhex(replies[q]) for q in qs if replies.get(q)]
